@@ -289,6 +289,53 @@ def recorded_T(ctx, kind="array2", steps=2, stages=()):
         tprev = tn
 
 
+def recorded_T_restage(ctx, kind="const", kind2="const", steps=1, steps2=1, stages=()):
+    """staged heat treatment on one model without reset(): `steps` recorded steps under one schedule, then the real
+    setTemperature with another schedule and `steps2` more real step sequences: every appended temperature is the
+    schedule in force evaluated at the step's time, and the lookup table in use follows it"""
+    args, ref, iso = mk_schedule(ctx, kind)
+    args2, ref2, iso2 = mk_schedule(ctx, kind2, tag="n_")
+    m, log, used = mk_binary(ctx, PrecTP(*args))
+    mx = ctx.real("maxTempChange", (50.0, 400.0))
+    ctx.assume(mx >= 0)
+    m.constraints.maxTempChange = mx
+    t0, dts = step_times(ctx, steps + steps2)
+    touch_schedule(ref, t0, dts[:steps], stages)
+    tsw = t0
+    for dt in dts[:steps]:
+        tsw = tsw + dt
+    touch_schedule(ref2, tsw, dts[steps:], stages)
+    m.pData.time[0] = t0
+    m.setup()
+    ctx.prove("setup records the schedule at the start time", ctx.eq(m.pData.temperature[0], ref(t0)))
+    tprev = t0
+    for k in range(steps + steps2):
+        if k == steps:
+            m.setTemperature(*args2)
+        cur = ref if k < steps else ref2
+        what = "first schedule" if k < steps else "after setTemperature"
+        dt = dts[k]
+        tn = tprev + dt
+        del used[:]
+        x = [m.PBM[0].PSD * 1]
+        m.preProcess()
+        m.getdXdt(tprev, x)
+        for s in stages:
+            m.getdXdt(tprev + s * dt, x)
+        m.postProcess(tn, x)
+        n = m.pData.n
+        ctx.prove("one entry appended per step", n == k + 1 and len(m.pData.temperature) == k + 2)
+        ctx.observe("T%d" % (k + 1), m.pData.temperature[n])
+        ctx.prove("recorded time is the step's time [%s]" % what, ctx.eq(m.pData.time[n], tn))
+        ctx.prove("recorded temperature is the schedule in force at the step's time [%s]" % what, ctx.eq(m.pData.temperature[n], cur(tn)))
+        if not stages:
+            prove_uses(ctx, used, mx, "staged run, %s" % what)
+            ctx.prove("recorded equilibrium compositions were computed within maxTempChange of the recorded temperature [staged run, %s]" % what,
+                      ctx.all([within(ctx, m.pData.temperature[n], m.pData.xEqAlpha[n, 0, 0], mx), within(ctx, m.pData.temperature[n], m.pData.xEqBeta[n, 0, 0], mx)]))
+        tprev = tn
+    ctx.prove("records of the first stage untouched", ctx.eq(m.pData.temperature[0], ref(t0)))
+
+
 # --------------------------------------------------------------------------- 4. binary lookup table: inductive step
 def set_table_state(ctx, m, bins, Tt, Tl, Tfirst):
     """put the real model into the state 'two recorded steps; table built at Tt, last recorded temperature Tl,
@@ -621,6 +668,13 @@ HARNESSES = [
                     "thorough": [dict(kind="array3", steps=2), dict(kind="array2", steps=3), dict(kind="const", steps=3, stages=(0.5, 0.5, 1.0)),
                                  dict(kind="func", steps=3, stages=(0.5, 0.5, 1.0)), dict(kind="array2", steps=2, stages=(0.5, 0.5, 1.0)),
                                  dict(kind="array4", steps=2)]}),
+    Harness("C13.recorded_T_restage", recorded_T_restage, functions=_FR + [PrecipitateBase.setTemperature], assumptions=_A_SCHED + _A_TABLE[:1], stubs=_S_TAG[1:],
+            budget={"quick": 120.0, "thorough": 1200.0},
+            bounds={"steps before / after the schedule change": "1 / 1 (quick), <= 2 / 2 (thorough)", "size classes": 3, "phases": 1},
+            params={"quick": [dict(kind="const", kind2="const"), dict(kind="const", kind2="array2"), dict(kind="array2", kind2="const"),
+                              dict(kind="const", kind2="const", stages=(0.5,))],
+                    "thorough": [dict(kind=k1, kind2=k2, steps=2, steps2=2) for k1, k2 in (("const", "const"), ("func", "const"), ("const", "func"))] +
+                                [dict(kind="const", kind2="array3"), dict(kind="array3", kind2="const"), dict(kind="const", kind2="const", steps2=2, stages=(0.5, 0.5, 1.0))]}),
     Harness("C13.lookup_refresh", lookup_refresh, functions=_FR, assumptions=_A_TABLE, stubs=_S_TAG, bounds={"size classes": "bins", "phases": 1},
             params={"quick": [dict(bins=3)], "thorough": [dict(bins=3), dict(bins=8)]}),
     Harness("C13.lookup_history", lookup_history, functions=_FR, assumptions=_A_TABLE + _A_SCHED[1:], stubs=_S_TAG, budget={"quick": 120.0, "thorough": 1200.0},
